@@ -1223,6 +1223,17 @@ def rule_exact_collapse(rep: Report, ix: Index) -> None:
                 n += 1
                 rep.saw("reader branches that drop identity leaves", f"{col.func.ref} under `{col.condition}` drops {[str(d) for d in col.dropped]}")
                 dflt = constructor_defaults(ix, c, key) if key else {}
+                narrow = dflt.pop("__narrow__", None)
+                if narrow:
+                    rep.oblige(f"{c.name}:constructor accepts the JSON form of `{key}`", False, narrow)
+                    rep.violation(
+                        "C14.state-key-binding",
+                        f"{c.find_method('__init__').ref}::{key}::json-form",
+                        f"{narrow}: {c.name}.from_state(g.state_serialized) and every field or storage attribute that embeds such a grid fail (or rebuild another grid) for grids whose `{key}` is a pair",
+                        line=c.find_method("__init__").node.lineno,
+                    )
+                if not dflt and not narrow:
+                    raise AnalysisError(f"{c.find_method('__init__').ref}: the constructor idiom that tells the full form of `{key}` from the collapsed one is not recognised")
                 for leaf in col.dropped:
                     why = None
                     if leaf not in col.exact:
